@@ -16,6 +16,8 @@ import os, sys, json, time, hashlib, random, traceback, importlib
 import multiprocessing as mp
 
 VERIF = os.path.dirname(os.path.dirname(os.path.abspath(__file__)))
+# evidence and replay files go to /verif unless a scratch run (mutation campaign against a copy of the repository) redirects them
+OUT = os.environ.get("VERIF_OUT", VERIF)
 REPO = os.environ.get("VERIF_REPO", "/repo")
 NPROC = int(os.environ.get("VERIF_NPROC", "16"))
 
@@ -101,10 +103,10 @@ def match_known(viol, known):
 
 
 def write_replay(pid, modname, viol):
-    os.makedirs(os.path.join(VERIF, "replays"), exist_ok=True)
+    os.makedirs(os.path.join(OUT, "replays"), exist_ok=True)
     body = dict(property=pid, module=modname, assertion=viol["assertion"], tags=viol.get("tags", []),
                 message=viol["message"], case=viol["case"], detail=viol.get("detail"))
-    path = os.path.join(VERIF, "replays", f"{pid}-{h(body)}.json")
+    path = os.path.join(OUT, "replays", f"{pid}-{h(body)}.json")
     with open(path, "w") as fh:
         json.dump(body, fh, indent=1, default=str)
     return path
@@ -240,8 +242,8 @@ def run_property(modname, tier, seed, replay=None, budget_s=None):
     ev = dict(property_id=pid, tier=tier, seed=seed, level=mod.LEVEL, coverage=cov,
               assumptions=list(mod.ASSUMPTIONS), wall_s=round(time.time() - t_start, 2),
               violations=n_viol_total)
-    os.makedirs(os.path.join(VERIF, "evidence"), exist_ok=True)
-    with open(os.path.join(VERIF, "evidence", f"{pid}.json"), "w") as fh:
+    os.makedirs(os.path.join(OUT, "evidence"), exist_ok=True)
+    with open(os.path.join(OUT, "evidence", f"{pid}.json"), "w") as fh:
         json.dump(ev, fh, indent=1, default=str)
     print(f"{pid} tier={tier} seed={seed} cases={agg['cases_done']}/{agg['cases_total']} "
           f"evals={agg['evals']} distinct_nontrivial={len(agg['keys'])} violations={n_viol_total} "
